@@ -1,102 +1,15 @@
 import Corro.Model.Crdt
 import Driver.Util
-/-! Driver for C01: the `c*` op family (plain cr-sqlite databases). -/
+import Driver.CrdtFmt
+import Driver.ClusterOps
+/-! Driver for C01: the `c*` op family (plain cr-sqlite databases) and the cluster ops (`n*`). -/
 namespace Driver.C01
-open Corro.Crdt
-
-def hexDigit (c : Char) : Option Nat :=
-  if '0' ≤ c ∧ c ≤ '9' then some (c.toNat - '0'.toNat)
-  else if 'a' ≤ c ∧ c ≤ 'f' then some (c.toNat - 'a'.toNat + 10) else none
-
-def parseHex : List Char → Option (List Nat)
-  | [] => some []
-  | [_] => none
-  | a :: b :: rest => do
-    let x ← hexDigit a; let y ← hexDigit b; let r ← parseHex rest
-    pure ((x * 16 + y) :: r)
-
-def hexOf (n : Nat) : String :=
-  let d (k : Nat) : Char := if k < 10 then Char.ofNat (48 + k) else Char.ofNat (87 + k)
-  String.ofList [d (n / 16), d (n % 16)]
-
-def showHex (bs : List Nat) : String := String.join (bs.map hexOf)
-
-def parseVal (s : String) : Option Val :=
-  match s.toList with
-  | ['n'] => some .null
-  | 'i' :: rest => (String.ofList rest).toInt?.map Val.int
-  | 't' :: rest => (parseHex rest).map Val.text
-  | 'b' :: rest => (parseHex rest).map Val.blob
-  | _ => none
-
-def showVal : Val → String
-  | .null => "n"
-  | .int i => s!"i{i}"
-  | .text b => "t" ++ showHex b
-  | .blob b => "b" ++ showHex b
-
-def showChg (c : Chg) : String :=
-  s!"{c.tbl}/{c.pk}/{c.cid}={showVal c.val}@{c.colv}.{c.cl}.{c.site}.{c.dbv}.{c.seq}"
-
-def showChgs (cs : List Chg) : String := showList (cs.map showChg) ";"
-
-def insertSorted (lt : α → α → Bool) (x : α) : List α → List α
-  | [] => [x]
-  | y :: ys => if lt x y then x :: y :: ys else y :: insertSorted lt x ys
-
-def sortBy (lt : α → α → Bool) (xs : List α) : List α := xs.foldl (fun acc x => insertSorted lt x acc) []
-
-def keyLt (a b : Chg) : Bool :=
-  a.tbl < b.tbl ∨ (a.tbl = b.tbl ∧ (a.pk < b.pk ∨ (a.pk = b.pk ∧ a.cid < b.cid)))
-
-def dump (db : Db) : String :=
-  let chs := sortBy keyLt db.changes
-  let rowsOf (tbl : String) : List String :=
-    match tableCols tbl with
-    | none => []
-    | some cols =>
-      sortBy (fun (a b : String) => a < b) <|
-        (db.rows.filter (fun r => r.tbl = tbl ∧ r.cl % 2 = 1)).map fun r =>
-          let vals := cols.map fun c => match r.findCell c with | some x => showVal x.val | none => "n"
-          s!"{tbl}/{r.pk}:" ++ ",".intercalate vals
-  let rows := rowsOf "k" ++ rowsOf "t" ++ rowsOf "u"
-  showChgs chs ++ " | " ++ showList rows ";"
-
-/-- stored == written: no integers into TEXT-affinity columns, only integers/NULL into `b` -/
-def typeOk (c : String) : Val → Bool
-  | .null => true
-  | .int _ => c == "b"
-  | .text _ => c == "a" || c == "x"
-  | .blob _ => c == "a" || c == "x"
-
-def parseAssigns (s : String) : Option (List (String × Val)) :=
-  (splitList s).mapM fun kv =>
-    match kv.splitOn "=" with
-    | [c, v] => (parseVal v).bind fun x => if typeOk c x then some (c, x) else none
-    | _ => none
-
-def pkOk (tbl pk : String) : Bool :=
-  let n := (pk.splitOn "+").length
-  ((pk.splitOn "+").all (fun t => (parseVal t).isSome)) &&
-  (match tbl with | "u" => n == 2 | "t" => n == 1 | "k" => n == 1 | _ => false)
-
-def parseStmt (s : String) : Option Stmt :=
-  match s.splitOn ":" with
-  | ["ins", tbl, pk] => if pkOk tbl pk then some (.ins tbl pk []) else none
-  | ["ins", tbl, pk, a] => do
-      let cols ← tableCols tbl
-      let asg ← parseAssigns a
-      if pkOk tbl pk ∧ asg.all (fun x => cols.contains x.1) then some (.ins tbl pk asg) else none
-  | ["upd", tbl, pk, a] => do
-      let cols ← tableCols tbl
-      let asg ← parseAssigns a
-      if pkOk tbl pk ∧ ¬ asg.isEmpty ∧ asg.all (fun x => cols.contains x.1) then some (.upd tbl pk asg) else none
-  | ["del", tbl, pk] => if pkOk tbl pk then some (.del tbl pk) else none
-  | _ => none
+open Corro.Crdt Driver.CrdtFmt
 
 structure State where
   dbs : List Db := []                              -- index = site
   log : List ((Nat × Nat) × List Chg) := []        -- original change list of (site, version)
+  cluster : Driver.ClusterOps.CState := {}
 
 def init : State := {}
 
@@ -112,7 +25,7 @@ def parseSeqs (s : String) : Option (Nat × Nat) :=
 
 def dbIdx (s : String) : Option Nat := s.toNat?.filter (· < 8)
 
-def step (st : State) (toks : List String) : Option (State × String) :=
+def stepCrdt (st : State) (toks : List String) : Option (State × String) :=
   match toks with
   | ["cw", db, stmts] => do
     let i ← dbIdx db
@@ -142,6 +55,14 @@ def step (st : State) (toks : List String) : Option (State × String) :=
     let i ← dbIdx db
     pure (st, dump (st.db i))
   | _ => none
+
+def step (st : State) (toks : List String) : Option (State × String) :=
+  match toks with
+  | t :: _ =>
+    if t.startsWith "n" then
+      (Driver.ClusterOps.step st.cluster toks).map fun (c, o) => ({ st with cluster := c }, o)
+    else stepCrdt st toks
+  | [] => none
 
 end Driver.C01
 def main : IO Unit := Driver.runLoop Driver.C01.init Driver.C01.step
